@@ -96,6 +96,12 @@ class Score(Case):
                 calls.append((list(np.asarray(a, dtype=object).flat), list(np.asarray(b, dtype=object).flat), v))
                 return types.SimpleNamespace(correlation=v)
             metrics.spearmanr = sp
+        else:
+            def sp(a, b):
+                r = old(a, b)
+                calls.append((list(np.asarray(a, dtype=float).flat), list(np.asarray(b, dtype=float).flat), float(r.correlation)))
+                return r
+            metrics.spearmanr = sp
         try:
             f = getattr(metrics, self.fn)
             if self.fn == 'corr':
@@ -172,6 +178,8 @@ class Score(Case):
             if self.extra.get('type', 'Pearson') == 'Pearson':
                 r = R['cov'] / (R['so'] * R['ss'])
                 res.append(('corr=pearson', close(val, r, self.tol)))
+            elif not O['calls']:
+                res.append(('spearman-delegated-to-scipy', False))
             elif O['calls']:
                 a, b, v = O['calls'][-1]
                 okargs = len(a) == len(to) and len(b) == len(ts)
@@ -253,7 +261,9 @@ def cases(tier):
                 out += [Score('kge', tr, n)]
         out += [Score('bias', tr, 2, extra=dict(type='log')), Score('corr', tr, 2, extra=dict(type='Spearman')),
                 Score('corr', tr, 2, extra=dict(stat='mean')),
-                Score('nse', tr, 3, excludenull=True, nanpos=('obs', 1)), Score('bias', tr, 3, excludenull=True, nanpos=('sim', 2)),
+                Score('nse', tr, 3, excludenull=True, nanpos=('obs', 1)), Score('nse', tr, 3, excludenull=True, nanpos=('sim', 2)),
+                Score('bias', tr, 3, excludenull=True, nanpos=('sim', 2)), Score('bias', tr, 3, excludenull=True, nanpos=('obs', 0)),
+                Score('corr', tr, 3, excludenull=True, nanpos=('sim', 1)),
                 Score('kge', tr, 3, excludenull=True, nanpos=('sim', 0)), Score('nse', tr, 3, excludenull=False, nanpos=('sim', 0)),
                 Score('nse', tr, 2, variant='perfect'), Score('bias', tr, 2, variant='perfect'), Score('kge', tr, 2, variant='perfect')]
     out.append(Binary())
